@@ -673,6 +673,37 @@ func FH() []*Program {
 				p.Async = true
 				return p
 			}()}}}})
+	// composite parameter types whose only use of an external package is a map key, a type
+	// argument or a variable of the var block (second file: the declaration file does not
+	// import the package itself)
+	asyncFn := func(name string, params, results []string) Prov {
+		p := fn(name, params, results, false)
+		p.Async = true
+		return p
+	}
+	for _, c := range []struct{ desc, typ string }{
+		{"map keyed by an external type", "map[time.Duration]string"},
+		{"map with an external value type", "map[string]time.Duration"},
+		{"generic local type instantiated with an external type", "Box[time.Duration]"},
+		{"generic local type nested in a map key position", "map[Box[time.Duration]]int"},
+		{"function type with an external parameter", "func(time.Duration) string"},
+		{"channel of an external type", "<-chan time.Duration"},
+	} {
+		out = append(out, &Program{Family: "FH", Desc: c.desc + " as injector argument, second file", Types: typeNames(2), Files: [][]int{{0}, {1}},
+			ExtraImports: []string{`"time"`}, Consts: []string{"type Box[T comparable] struct{ V T }"},
+			Decls: []Decl{
+				{Name: "InitP", Request: "*T0", Provs: []Prov{fn("NewT0", nil, []string{"*T0"}, false)}},
+				{Name: "InitQ", Request: "*T1", Provs: []Prov{fn("NewT1", []string{c.typ}, []string{"*T1"}, false)}}}})
+		out = append(out, &Program{Family: "FH", Desc: c.desc + " in the var block of an async injector, second file", Types: typeNames(4), Files: [][]int{{0}, {1}},
+			ExtraImports: []string{`"time"`}, Consts: []string{"type Box[T comparable] struct{ V T }"},
+			Decls: []Decl{
+				{Name: "InitP", Request: "*T0", Provs: []Prov{fn("NewT0", nil, []string{"*T0"}, false)}},
+				{Name: "InitQ", Request: "*T1", Provs: []Prov{
+					asyncFn("NewM", nil, []string{c.typ}),
+					asyncFn("NewT2", nil, []string{"*T2"}),
+					asyncFn("NewT3", []string{c.typ}, []string{"*T3"}),
+					fn("NewT1", []string{"*T2", "*T3"}, []string{"*T1"}, false)}}}})
+	}
 	// two files of one package, each with an async injector and different imports
 	out = append(out, &Program{Family: "FH", Desc: "two files, async injectors", Types: typeNames(3), Files: [][]int{{0}, {1}}, Decls: []Decl{
 		coreDecl("InitP", [][]int{{1, 2}, {}, {}}, 0b110, 0b010, -1, 0),
